@@ -353,6 +353,16 @@ class Check:
         for a in pa:
             if a != "Closed under the global context":
                 self.notes.append("Print Assumptions lists: " + a)
+        if ok and tier() == "thorough":
+            # independent re-check of the compiled property file and everything it depends on
+            t1 = time.time()
+            p = subprocess.run(["timeout", "3000", "coqchk", "-silent", "-o", "-Q", ".", "V", "V.Props.%s" % self.pid], cwd=COQ, stdout=subprocess.PIPE, stderr=subprocess.STDOUT)
+            out = p.stdout.decode()
+            m = re.search(r"\* Axioms:\s*(.*?)\n\s*\n", out, flags=re.S)
+            axioms = m.group(1).strip() if m else "?"
+            self.cov["coqchk"] = {"rc": p.returncode, "axioms": axioms, "wall_s": round(time.time() - t1, 1)}
+            if p.returncode != 0 or axioms != "<none>":
+                self.broken.append({"kind": "coqchk", "what": "coqchk -o V.Props.%s: rc %d, axioms %s" % (self.pid, p.returncode, axioms), "log_tail": out[-1200:]})
         self.cov["samples"] += [{"obligation": n} for n in names[-3:]]
         return ok
 
